@@ -5,7 +5,7 @@ set -u
 cd /repo
 WT=/tmp/sens-revert
 OUT=/verif/dev/sens_revert.log
-: > $OUT
+[ $# -gt 0 ] || : > $OUT
 if [ $# -gt 0 ]; then LIST="$*"; else LIST=$(git log --format='%h' --grep='^fix:' ); fi
 for sha in $LIST; do
   subj=$(git log -1 --format=%s $sha)
